@@ -258,7 +258,7 @@ func (g *docGen) object(depth int) V {
 		g.ws()
 		var key string
 		if len(out.O) > 0 && drawInt(g.t, 0, 7, "dup") == 0 {
-			key = out.O[drawInt(g.t, 0, len(out.O)-1, "dupi")].K
+			key = out.O[drawIdx(g.t, len(out.O), "dupi")].K
 			g.feat("duplicate_key")
 		} else {
 			key = GenString(g.t, 8)
